@@ -132,7 +132,10 @@ plan("C14", "c14.py", "type definitions x conforming messages x single-point dev
      "of the serializer escape; flushTracebacks returns exactly the tracebacks whose reason is an instance of the type and keeps the others "
      "in order; MemoryLogger.validate re-validates every recorded "
      "message with its own serializer; check_for_errors raises UnflushedTracebacks before validating whenever tracebacks are unflushed; "
-     "swap_logger installs and returns the previous default. capture_logging's cleanup registration is decided by the bounded driver only.",
+     "swap_logger installs and returns the previous default; capture_logging's wrapper swaps the captured logger in, registers its cleanup exactly "
+     "once *before* the test body runs (so also when the body raises), runs the body once with the captured logger installed, and the cleanup "
+     "closure reinstalls exactly the logger that was the default at entry. That unittest runs registered cleanups whatever the outcome is "
+     "unittest's contract (trusted, exercised by the bounded driver).",
      "Trusted: Serializer/Validator interface models, orjson raising only Exception subclasses, unittest addCleanup semantics (driver), "
      "encoding assumptions.", side_checks=["ownership_check.py"])
 
